@@ -50,6 +50,72 @@ pub fn hermetic_exec(prop: &str, sc: &Scenario) -> Result<Option<Violation>, Str
     serde_json::from_str::<Option<Violation>>(&line[7..]).map_err(|e| e.to_string())
 }
 
+/// Like `hermetic_exec`, but the child is killed when it has not answered within `limit`: Ok(None) = it did not finish.
+pub fn hermetic_exec_timeout(prop: &str, sc: &Scenario, limit: Duration) -> Result<Option<Option<Violation>>, String> {
+    use std::io::{Read, Write};
+    let exe = std::env::current_exe().map_err(|e| e.to_string())?;
+    let mut ch = std::process::Command::new(exe)
+        .args(["exec-stdin", prop])
+        .env("VERIF_DRY", "1")
+        .stdin(std::process::Stdio::piped())
+        .stdout(std::process::Stdio::piped())
+        .stderr(std::process::Stdio::null())
+        .spawn()
+        .map_err(|e| e.to_string())?;
+    ch.stdin.take().unwrap().write_all(serde_json::to_string(sc).unwrap().as_bytes()).map_err(|e| e.to_string())?;
+    let mut out = ch.stdout.take().unwrap();
+    let reader = std::thread::spawn(move || {
+        let mut text = String::new();
+        let _ = out.read_to_string(&mut text);
+        text
+    });
+    let t0 = std::time::Instant::now();
+    loop {
+        match ch.try_wait() {
+            Ok(Some(_)) => break,
+            Ok(None) if t0.elapsed() > limit => {
+                let _ = ch.kill();
+                let _ = ch.wait();
+                let _ = reader.join();
+                return Ok(None);
+            }
+            Ok(None) => std::thread::sleep(Duration::from_millis(2)),
+            Err(e) => return Err(e.to_string()),
+        }
+    }
+    let text = reader.join().map_err(|_| "reader thread died".to_string())?;
+    let line = text.lines().find(|l| l.starts_with("RESULT ")).ok_or_else(|| format!("child gave no result: {}", text))?;
+    serde_json::from_str::<Option<Violation>>(&line[7..]).map(Some).map_err(|e| e.to_string())
+}
+
+/// Shrink a scenario that does not finish: every candidate runs in a fresh child process that is killed after
+/// `trial`; the result is kept only if it still does not finish within the (longer) limit `replay` uses.
+/// The verdict itself was already reached by the batch watchdog; this only makes the replay file small.
+pub fn minimise_hang(prop: &str, sc: &Scenario) -> Option<Scenario> {
+    let trial = Duration::from_secs(5);
+    let hang = Violation {
+        property: prop.into(),
+        class: format!("{}/hang", prop),
+        step: 0,
+        detail: String::new(),
+        expected: vec![],
+        got: vec![],
+        oracle: String::new(),
+    };
+    let exec = |c: &Scenario| -> Option<Violation> {
+        match hermetic_exec_timeout(prop, c, trial) {
+            Ok(None) => Some(hang.clone()),
+            _ => None,
+        }
+    };
+    exec(sc)?;
+    let (min, _) = crate::minimise::minimise(sc, &hang, &exec, Duration::from_secs(240));
+    match hermetic_exec_timeout(prop, &min, Duration::from_secs(30)) {
+        Ok(None) => Some(min),
+        _ => None,
+    }
+}
+
 /// `hermetic`: violations are confirmed and minimised in fresh child processes; a violation that
 /// cannot be confirmed that way is remembered but the search goes on for one that can.
 #[allow(clippy::too_many_arguments)]
@@ -73,7 +139,10 @@ pub fn run_stage_opt(name: &str, runs: u64, wall_cap: Duration, total: &mut Stat
         }
         // the stuck run is regenerated from its index and written out as the replay file
         let sc = gen(i);
-        report::hang_exit(i, Some(&sc));
+        match minimise_hang(&c.prop, &sc) {
+            Some(min) => report::hang_exit(i, Some((&min, sc.ops.len(), true))),
+            None => report::hang_exit(i, Some((&sc, sc.ops.len(), false))),
+        }
     };
     // generous: an implementation may legitimately do O(window) work per call under some condition, and the
     // fixed corpora contain windows of 2e5 slots
